@@ -113,6 +113,17 @@ impl Scenario for Batch {
                 }
             }
         }
+        // the same backlog with a high-water mark below it (channels 1 and 2 are not being
+        // listened to when the batch happens), the server closing both channels, the transport
+        // taking bytes again and a new channel being opened - in one wake-up and one by one
+        {
+            let items: Vec<String> = ["W", "SCh", "SCh2", "K:alloc"].iter().map(|x| x.to_string()).collect();
+            for order in permutations(&items) {
+                for mode in ["one", "separate"] {
+                    v.push(json!({"events": order, "mode": mode, "stall": false, "prepub": true, "high": 16}));
+                }
+            }
+        }
         v
     }
     fn bound(&self, _tier: &str, _p: &Value) -> usize {
@@ -125,6 +136,7 @@ impl Scenario for Batch {
         let mut broker = StdBroker::new(Handshake::default());
         broker.pushes.push(Push::new("SC", vec![conn_close_frame(320, "bye")]).manual());
         broker.pushes.push(Push::new("SCh", vec![chan_close_frame(1, 404, "NOT_FOUND")]).manual());
+        broker.pushes.push(Push::new("SCh2", vec![chan_close_frame(2, 404, "NOT_FOUND")]).manual());
         let mut cfg = EnvConfig::default();
         cfg.time = false;
         let events: Vec<String> = p["events"].as_array().unwrap().iter().map(|x| x.as_str().unwrap().to_string()).collect();
@@ -133,6 +145,7 @@ impl Scenario for Batch {
         let precall = p["precall"] == true;
         let qbound = p["bound"].as_u64().unwrap_or(16) as usize;
         let prepub = p["prepub"] == true;
+        let high = p["high"].as_u64().map(|h| h as usize);
         if prepub {
             // only the batch's own "W" lets the transport take bytes again
             cfg.no_grants = true;
@@ -154,7 +167,10 @@ impl Scenario for Batch {
             broker: Box::new(broker),
             cfg,
             root: Box::new(move |ctx: Ctx| {
-                let mut conn = match open(&ctx, ConnectionOptions::default().heartbeat(0), ConnectionTuning::default().mem_channel_bound(qbound)) {
+                let mut conn = match open(&ctx, ConnectionOptions::default().heartbeat(0), match high {
+                    Some(h) => ConnectionTuning::default().mem_channel_bound(qbound).buffered_writes_high_water(h).buffered_writes_low_water(0),
+                    None => ConnectionTuning::default().mem_channel_bound(qbound),
+                }) {
                     Ok(c) => c,
                     Err(e) => {
                         ctx.log(format!("open -> Err({})", err_name(&e)));
@@ -269,7 +285,7 @@ impl Scenario for Batch {
                 for ev in &events {
                     match ev.as_str() {
                         "W" => ctx.force_grant(),
-                        "SC" | "SCh" => {
+                        "SC" | "SCh" | "SCh2" => {
                             if !ctx.force_push(ev) {
                                 ctx.log(format!("push {} not possible", ev));
                             }
